@@ -370,6 +370,33 @@ func (x *Exec) specIdent(env *Env, id *ast.Ident) (Val, error) {
 			}
 		}
 	}
+	// rangeslice: the (once evaluated) operand of the range loop whose hidden counter is rangeindex
+	if name == "rangeslice" && env.fr != nil {
+		if ri := x.findLocal(env.fr, "rangeindex", env.pos); ri != nil && ri.Referrers() != nil {
+			for _, r := range *ri.Referrers() {
+				st, ok := r.(*ssa.Store)
+				if !ok {
+					continue
+				}
+				inc, ok := st.Val.(*ssa.BinOp)
+				if !ok || inc.Referrers() == nil {
+					continue
+				}
+				for _, u := range *inc.Referrers() {
+					cmp, ok := u.(*ssa.BinOp)
+					if !ok || cmp.Op != token.LSS {
+						continue
+					}
+					if call, ok := cmp.Y.(*ssa.Call); ok {
+						if b, ok := call.Call.Value.(*ssa.Builtin); ok && b.Name() == "len" && len(call.Call.Args) == 1 {
+							return x.val(env.fr, env.st, call.Call.Args[0]), nil
+						}
+					}
+				}
+			}
+		}
+		return Val{}, fmt.Errorf("rangeslice: no range loop over a slice here")
+	}
 	// locals (inside function bodies: invariants, asserts)
 	if env.fr != nil && (!env.inOld || env.regionSide) {
 		if a := x.findLocal(env.fr, name, env.pos); a != nil {
@@ -463,11 +490,38 @@ func (x *Exec) findLocal(fr *Frame, name string, pos token.Pos) *ssa.Alloc {
 			}
 		}
 	}
-	// fall back: the last declared before pos
+	// fall back: the last declared before pos (hidden variables such as the counter of a range
+	// loop have no position of their own: the first position among their uses stands in)
+	effPos := func(a *ssa.Alloc) token.Pos {
+		if a.Pos().IsValid() {
+			return a.Pos()
+		}
+		var p token.Pos
+		if refs := a.Referrers(); refs != nil {
+			for _, r := range *refs {
+				if rp := r.Pos(); rp.IsValid() && (!p.IsValid() || rp < p) {
+					p = rp
+				}
+				// the value loaded from / stored to the cell is used by positioned instructions
+				if v, ok := r.(ssa.Value); ok {
+					if rr := v.Referrers(); rr != nil {
+						for _, u := range *rr {
+							if up := u.Pos(); up.IsValid() && (!p.IsValid() || up < p) {
+								p = up
+							}
+						}
+					}
+				}
+			}
+		}
+		return p
+	}
+	var bestPos token.Pos
 	for _, c := range cands {
-		if !pos.IsValid() || c.Pos() <= pos {
-			if best == nil || c.Pos() > best.Pos() {
-				best = c
+		cp := effPos(c)
+		if !pos.IsValid() || cp <= pos {
+			if best == nil || cp > bestPos {
+				best, bestPos = c, cp
 			}
 		}
 	}
